@@ -427,6 +427,148 @@ func c09Cases(thorough bool) (normal, hostile []c09Case) {
 	return
 }
 
+// c09KeepOpen: the peer sends an over-limit message at position pos of a bidi
+// stream and then keeps its side open, waiting for the answer.  The receiver's
+// Receive must fail with the documented error without waiting for the end of
+// the peer's stream (a hang is decided by bubble quiescence).
+func c09KeepOpen(t *testing.T, c *ev.Collector) {
+	idx := 0
+	for _, p := range AllProtos {
+		for _, client := range []bool{false, true} {
+			if client && p == PGRPC {
+				continue // the gRPC client reads on to the HTTP trailers: known finding of C14 (oversize-response)
+			}
+			for _, n := range []int{64, 1024} {
+				for pos := 1; pos <= 2; pos++ {
+					for _, extra := range []int{1, 700} {
+						idx++
+						if !ev.Mine(idx) {
+							continue
+						}
+						key := fmt.Sprintf("keep-open/%s/bidi/client=%v/N%d/pos%d/+%d", p, client, n, pos, extra)
+						c.Case(key, true)
+						Bubble(t, func() {
+							big := Payload(n+extra, 'B')
+							small := Payload(n/2, 's')
+							var sideErr error
+							delivered := 0
+							release := make(chan struct{})
+							h := NewHandler(KBidi, func(ctx context.Context, s HStream) error {
+								if client {
+									// the handler is the sender: messages, then wait for the client's reaction
+									for i := 1; i <= pos; i++ {
+										m := small
+										if i == pos {
+											m = big
+										}
+										if err := s.Send(&BV{Value: m}); err != nil {
+											return err
+										}
+									}
+									<-release
+									return nil
+								}
+								for {
+									_, err := s.Receive()
+									if err != nil {
+										sideErr = err
+										return err
+									}
+									delivered++
+								}
+							}, func() []connect.HandlerOption {
+								if client {
+									return []connect.HandlerOption{connect.WithCompressMinBytes(1 << 30)}
+								}
+								return []connect.HandlerOption{connect.WithReadMaxBytes(n)}
+							}()...)
+							tr := &memhttp.Transport{Handler: h, Proto: 2}
+							var copts []connect.ClientOption
+							if client {
+								copts = append(copts, connect.WithReadMaxBytes(n))
+							}
+							cl := NewClient(tr, Cfg{Proto: p, Comp: CompNone, Kind: KBidi, HTTP: 2}, copts...)
+							var recvErr error
+							g := Guarded(func() {
+								stream := cl.CallBidiStream(context.Background())
+								if client {
+									_ = stream.Send(&BV{Value: []byte{1}})
+									for {
+										if _, err := stream.Receive(); err != nil {
+											recvErr = err
+											break
+										}
+										delivered++
+									}
+									close(release)
+								} else {
+									for i := 1; i <= pos; i++ {
+										m := small
+										if i == pos {
+											m = big
+										}
+										if err := stream.Send(&BV{Value: m}); err != nil {
+											break
+										}
+									}
+									// keep the request side open and wait for the answer
+									_, recvErr = stream.Receive()
+								}
+								_ = stream.CloseRequest()
+								_ = stream.CloseResponse()
+							}, tr)
+							c.AddTransitions(int64(pos + 3))
+							c.AddStates(int64(pos + 3))
+							c.AddTraces(1)
+							tags := []string{"proto=" + p.String(), "kind=bidi", map[bool]string{true: "side=client", false: "side=handler"}[client], "sender-keeps-stream-open"}
+							viol := func(clause, outcome, format string, args ...any) {
+								c.Violation("TestC09", clause, outcome, tags, key, "%s: "+format, append([]any{key}, args...)...)
+							}
+							switch {
+							case g.Hung || g.Panicked:
+								viol("oversize-fails-call", "hang-or-panic", "the receiver did not report the over-limit message while the sender kept its side open: hung=%v panic=%v\n%s", g.Hung, g.Panic, trimStacks(g.Stack))
+								c.Outcome("violation")
+								BailIfStuck(c, g)
+							case delivered != pos-1:
+								viol("oversize-never-delivered", "delivered", "%d messages reached the application, %d were within the limit", delivered, pos-1)
+								c.Outcome("violation")
+							case connect.CodeOf(recvErr) != connect.CodeInvalidArgument && !(client == false && connect.CodeOf(recvErr) == connect.CodeInvalidArgument):
+								viol("oversize-fails-call", "code="+classifyErr(recvErr), "the call ended with %v (handler side saw %v), want invalid_argument", recvErr, sideErr)
+								c.Outcome("violation")
+							default:
+								c.Outcome("rejected")
+							}
+						})
+					}
+				}
+			}
+		}
+	}
+}
+
+// c09HugeLimits: limits at and above 2^32 accept everything a test can send.
+func c09HugeLimits(t *testing.T, c *ev.Collector) {
+	idx := 0
+	for _, p := range AllProtos {
+		for _, kind := range AllKinds {
+			for _, client := range []bool{false, true} {
+				for _, n := range []int{1 << 32, 1<<32 + 64, 2<<32 + 300, 1<<31 + 5} {
+					idx++
+					if !ev.Mine(idx) {
+						continue
+					}
+					k := c09Case{Proto: p, Kind: kind, Client: client, N: n, Sizes: []int{63}}
+					if (client && kind.ServerStreams()) || (!client && kind.ClientStreams()) {
+						k.Sizes = []int{0, 65, 301}
+					}
+					c.Case(k.key(), true)
+					Bubble(t, func() { c09Check(c, k) })
+				}
+			}
+		}
+	}
+}
+
 func TestC09(t *testing.T) {
 	c := ev.New("C09")
 	defer func() { _ = c.Finish() }()
@@ -446,6 +588,8 @@ func TestC09(t *testing.T) {
 		})
 		return
 	}
+	c09KeepOpen(t, c)
+	c09HugeLimits(t, c)
 	normal, hostile := c09Cases(ev.Thorough())
 	for i, k := range normal {
 		if !ev.Mine(i) {
